@@ -107,7 +107,7 @@ def subterms(c, acc):
 def run(ctx):
     rng = ctx.rng
     quick = ctx.quick
-    ctx.build(['P_C03.vo', 'P_C14_en.vo'], gens=('tables', 'grammar'))
+    ctx.build(['P_C03.vo', 'P_C14_en.vo'], gens=('tables', 'grammar_en'))      # en.py only: ja.py / __init__.py are not this check's business
     ctx.theorems('P_C03')
     ctx.theorems('P_C14_en')
 
